@@ -343,7 +343,8 @@ def _model_line(c, name):
     elif k == 'dummy':
         p = c['params']
         # the vertex list of the lens with the dummy may be re-based (surface 1 at z = 0): same lens shifted by `shift`
-        call = f'trace (insert_at {p["gap"] + 1} (dummy_surf (O:=FOps) {fh(p["zd"])} {fh(p["n"])}) {name}) {r0}'
+        # launched as optiland launches in the lens WITH the dummy (the launch plane follows the vertex list)
+        call = f'trace (insert_at {p["gap"] + 1} (dummy_surf (O:=FOps) {fh(p["zd"])} {fh(p["n"])}) {name}) {_coq_ray(c["timpl"][0], w)}'
         launch = 'true'
         if abs(p.get('shift', 0.0)) > 0 or c['surfs0'][p['gap'] + 1]['k1'] != 0:
             return None     # re-based vertex list / absorbing medium: outside dummy_surf (k = 0)
